@@ -2784,6 +2784,37 @@ func (e *Env) factsAtBlock(p *ssa.BasicBlock, assume []Fact) []Fact {
 // factsAt is factsAtBlock refined to a program point: instructions of p after `at` are not considered as kills.
 func (e *Env) factsAt(p *ssa.BasicBlock, at ssa.Instruction, assume []Fact) []Fact {
 	ef := e.EdgeFacts()
+	if len(assume) > 0 {
+		// a disjunction of which all alternatives but one contradict what is assumed yields that alternative's facts
+		ef2 := map[edge][]Fact{}
+		for ed, fs := range ef {
+			out := fs
+			for _, f := range fs {
+				if len(f.Or) == 0 {
+					continue
+				}
+				var live [][]Fact
+				for _, alt := range f.Or {
+					dead := false
+					for _, g := range alt {
+						for _, a := range assume {
+							if contradicts(g, a) {
+								dead = true
+							}
+						}
+					}
+					if !dead {
+						live = append(live, alt)
+					}
+				}
+				if len(live) == 1 {
+					out = append(append([]Fact{}, out...), live[0]...)
+				}
+			}
+			ef2[ed] = out
+		}
+		ef = ef2
+	}
 	groups := map[string][]edge{}
 	rep := map[string]Fact{}
 	infeasibleEdges := map[edge]bool{}
